@@ -324,6 +324,12 @@ def check(run):
             return {'x': 'x', 'gamma': 'gamma'}.get(t0.args[0])
         if tr and t0 is tr[0]:
             return 'tr'
+        if tr and t0.op == 'attr' and t0.args[1] == 'real' and strip_views(t0.args[0]) is tr[0]:
+            return 'tr'          # the trace of a Hermitian matrix is real
+        if tr and is_call_to(t0, 'numpy.maximum', 'numpy.clip', 'numpy.minimum', 'numpy.abs', 'numpy.absolute', 'numpy.where', 'numpy.nan_to_num') and \
+                any(x is tr[0] for x in walk_terms(t0, into_mu=False)):
+            # a floored / clipped trace: an absolute bound on a quantity that scales with x - no longer the documented loading gamma tr(x) / D
+            return f'{call_parts(t0)[0].split(".")[-1]}(tr, ...)'
         sd = shape_dim(t0)
         if sd is not None and sd[0].op == 'param' and sd[0].args[0] == 'x':
             return 'D' if sd[1] in (-1, -2) else f'x.shape[{sd[1]}]'
